@@ -279,6 +279,62 @@ func c11Tables(p *Prog, r *Report) {
 		}
 		return false
 	})
+	// a client table may select the sentinel in the switch and wrap it once afterwards:
+	//   switch code { case X: cause = S }; return fmt.Errorf("%s: %w", msg, cause)
+	wrapsAfter := func(fi *FuncInfo, rows []caseRow) []caseRow {
+		if fi == nil {
+			return rows
+		}
+		finfo := fi.Pkg.TypesInfo
+		wrapped := false
+		ast.Inspect(fi.Decl.Body, func(x ast.Node) bool {
+			rs, ok := x.(*ast.ReturnStmt)
+			if !ok {
+				return true
+			}
+			for _, e := range rs.Results {
+				c, ok := ast.Unparen(e).(*ast.CallExpr)
+				if !ok || !isFunc(finfo, c, "fmt", "Errorf") || len(c.Args) < 2 {
+					continue
+				}
+				format, _ := constStr(finfo, c.Args[0])
+				verbs := fmtVerbs(format)
+				for i, a := range c.Args[1:] {
+					if o, isVar := objOf(finfo, a).(*types.Var); isVar && !o.IsField() && isErrorType(o.Type()) && i < len(verbs) && verbs[i] == 'w' {
+						wrapped = true
+					}
+				}
+			}
+			return true
+		})
+		if !wrapped {
+			return rows
+		}
+		out := make([]caseRow, len(rows))
+		copy(out, rows)
+		for i := range out {
+			if len(out[i].Return) == 0 && len(out[i].Assign) == 1 {
+				for k, v := range out[i].Assign {
+					if strings.HasPrefix(v, "fs_db.Err") {
+						na := map[string]string{k: "wrap:" + v}
+						out[i].Assign = na
+					}
+				}
+			}
+		}
+		return out
+	}
+	var fromCodeFn *FuncInfo
+	fromCodeFn, _ = switchWith(p, kAdClientErr, pkgAdapterErr, func(fi *FuncInfo, rows []caseRow) bool {
+		for _, row := range rows {
+			if len(row.Labels) > 0 && strings.Contains(row.Labels[0], "grpc/codes.") {
+				return fi.Key == kAdClientErr
+			}
+		}
+		return false
+	})
+	t.FromPb = wrapsAfter(t.fromPbFn, t.FromPb)
+	t.FromCode = wrapsAfter(fromCodeFn, t.FromCode)
 	r.Tables["server_sentinel_to_detail_code"] = tableJSON(t.ToPb)
 	r.Tables["client_detail_code_to_sentinel"] = tableJSON(t.FromPb)
 	r.Tables["server_sentinel_to_status_code"] = tableJSON(t.ToCode)
@@ -392,9 +448,13 @@ func c11Tables(p *Prog, r *Report) {
 		if c, ok := x.(*ast.CallExpr); ok {
 			if sel, ok := c.Fun.(*ast.SelectorExpr); ok && sel.Sel.Name == "WithDetails" {
 				for _, a := range c.Args {
-					if ac, ok := ast.Unparen(a).(*ast.CallExpr); ok && p.callIs(se.Pkg, ac, t.toPbFn.Key) && len(ac.Args) == 1 && objOf(info, ac.Args[0]) == param {
-						attached = true
-					}
+					// the detail is the table function's result, or a message built around it (&store.Error{Code: f(err)})
+					ast.Inspect(a, func(y ast.Node) bool {
+						if ac, ok := y.(*ast.CallExpr); ok && p.callIs(se.Pkg, ac, t.toPbFn.Key) && len(ac.Args) == 1 && objOf(info, ac.Args[0]) == param {
+							attached = true
+						}
+						return true
+					})
 				}
 			}
 		}
@@ -612,8 +672,12 @@ func c11Plumbing(p *Prog, r *Report, rule string) {
 			if len(c.Args) > 0 {
 				if ac, ok := ast.Unparen(c.Args[0]).(*ast.CallExpr); ok && len(ac.Args) == 1 && objOf(info, ac.Args[0]) == ctxParam {
 					if as, ok := ac.Fun.(*ast.SelectorExpr); ok {
-						if f2, ok := info.Uses[as.Sel].(*types.Var); ok && f2.IsField() && strings.Contains(f2.Type().String(), "txCtxFn") {
-							good = true
+						// the decorator field: a func(context.Context) context.Context, whatever its type is called
+						if f2, ok := info.Uses[as.Sel].(*types.Var); ok && f2.IsField() {
+							if sg, ok := f2.Type().Underlying().(*types.Signature); ok && sg.Params().Len() == 1 && sg.Results().Len() == 1 &&
+								strings.HasSuffix(sg.Params().At(0).Type().String(), "context.Context") && strings.HasSuffix(sg.Results().At(0).Type().String(), "context.Context") {
+								good = true
+							}
 						}
 					}
 				}
@@ -635,7 +699,9 @@ func c11Plumbing(p *Prog, r *Report, rule string) {
 		}
 		info := pkg.TypesInfo
 		// attaches: the expression is the attaching call with a transaction id as its value
-		attaches := func(e ast.Expr) (bool, string) {
+		var attachesD func(e ast.Expr, depth int) (bool, string)
+		attaches := func(e ast.Expr) (bool, string) { return attachesD(e, 0) }
+		attachesD = func(e ast.Expr, depth int) (bool, string) {
 			c, ok := ast.Unparen(e).(*ast.CallExpr)
 			if !ok {
 				return false, ""
@@ -643,6 +709,11 @@ func c11Plumbing(p *Prog, r *Report, rule string) {
 			isID := func(a ast.Expr) bool {
 				switch x := ast.Unparen(a).(type) {
 				case *ast.SelectorExpr:
+					// a string field of the handle (id, txId, ...)
+					if fv, ok := info.Uses[x.Sel].(*types.Var); ok && fv.IsField() {
+						bt, isB := fv.Type().Underlying().(*types.Basic)
+						return isB && bt.Kind() == types.String
+					}
 					return x.Sel.Name == "id"
 				case *ast.Ident:
 					o := objOf(info, x)
@@ -662,6 +733,27 @@ func c11Plumbing(p *Prog, r *Report, rule string) {
 			if isFunc(info, c, "google.golang.org/grpc/metadata", "AppendToOutgoingContext") && len(c.Args) == 3 {
 				key := exprObjKey(info, c.Args[1])
 				return isID(c.Args[2]) && key == "internal/utils/grpc/interceptors/server.TxIdKey", "metadata key " + key
+			}
+			// a helper of the package that attaches the id it is given: withTxId(ctx, id)
+			if h := p.staticCallee(pkg, c); h != nil && h.Pkg == pkg && h.Decl != nil && h.Decl.Body != nil && depth < 2 {
+				idPassed := false
+				for _, a := range c.Args {
+					if isID(a) {
+						idPassed = true
+					}
+				}
+				var ret ast.Expr
+				nret := 0
+				walkNoLit(h.Decl.Body, func(x ast.Node) bool {
+					if rs, ok := x.(*ast.ReturnStmt); ok && len(rs.Results) == 1 {
+						ret = rs.Results[0]
+						nret++
+					}
+					return true
+				})
+				if idPassed && nret == 1 {
+					return attachesD(ret, depth+1)
+				}
 			}
 			return false, "metadata.AppendToOutgoingContext(ctx, TxIdKey, id)"
 		}
@@ -701,6 +793,16 @@ func c11Plumbing(p *Prog, r *Report, rule string) {
 						return singleReturn(fi.Decl.Body)
 					}
 				}
+				// a local variable holding the decorator: inTx := func(ctx) ctx {...}
+				if v, ok := info.Uses[x].(*types.Var); ok && !v.IsField() {
+					for _, f := range pkg.Syntax {
+						if f.Pos() <= v.Pos() && v.Pos() <= f.End() {
+							if d := singleDef(info, f, v); d != nil {
+								return decoratorReturn(d, depth+1)
+							}
+						}
+					}
+				}
 			case *ast.CallExpr:
 				// a function that builds the decorator: txCtx(id) returning func(ctx) ctx
 				if callee := p.staticCallee(pkg, x); callee != nil && callee.Decl.Body != nil {
@@ -736,11 +838,15 @@ func c11Plumbing(p *Prog, r *Report, rule string) {
 			ok := false
 			ast.Inspect(mf.Decl.Body, func(x ast.Node) bool {
 				if c, isC := x.(*ast.CallExpr); isC && len(c.Args) >= 1 {
-					if ac, isA := ast.Unparen(c.Args[0]).(*ast.CallExpr); isA && len(ac.Args) == 1 {
+					if ac, isA := ast.Unparen(c.Args[0]).(*ast.CallExpr); isA && len(ac.Args) >= 1 {
 						if ret := decoratorReturn(ac.Fun, 0); ret != nil {
 							if a, _ := attaches(ret); a {
 								ok = true
 							}
+						}
+						// ... or the attaching helper called directly with the handle's id: withTxId(ctx, t.id)
+						if a, _ := attaches(ac); a && len(ac.Args) > 1 {
+							ok = true
 						}
 					}
 				}
